@@ -186,17 +186,17 @@ fn validation_soup() -> FSpace {
     let imports = ["a.B", "q.E", "long.pkg.name.Thing", "android.os.IBinder", "x.y.Q"];
     let names = ["Unknown", "com.example.data.Payload", "B", "x", "y.Q", "IBinder", "a.b.c.d.e.f.g.H", "E"];
     let decls = ["", "parcelable E;", "parcelable Unknown; parcelable x.y.Q;"];
-    let n = 32 * names.len() * decls.len() * 2;
+    let n = 32 * names.len() * decls.len() * 4;
     FSpace {
         name: "VALIDATION-SOUP".into(),
         n,
-        describe: "every subset of 5 imports x 8 written type names (shorter and longer than the imports) x 3 forward-declaration sets x interface / parcelable, types at depth 0-3".into(),
+        describe: "every subset of 5 imports x 8 written type names (shorter and longer than the imports) x 3 forward-declaration sets x interface / parcelable / oneway interface / oneway methods returning raw containers, types at depth 0-3".into(),
         limit_s: 120,
         gen: Box::new(move |i| {
-            let kind = i % 2;
-            let d = (i / 2) % decls.len();
-            let nm = names[(i / (2 * decls.len())) % names.len()];
-            let mask = i / (2 * decls.len() * names.len());
+            let kind = i % 4;
+            let d = (i / 4) % decls.len();
+            let nm = names[(i / (4 * decls.len())) % names.len()];
+            let mask = i / (4 * decls.len() * names.len());
             let imps: String = imports
                 .iter()
                 .enumerate()
@@ -205,8 +205,13 @@ fn validation_soup() -> FSpace {
                 .collect();
             let body = if kind == 0 {
                 format!("interface I {{ {nm} f(in {nm} a, out List<{nm}> b, Map<String, List<{nm}[]>> c); const {nm} K = 1; }}")
-            } else {
+            } else if kind == 1 {
                 format!("parcelable P {{ {nm} a; {nm}[] b; List<Map<{nm}, {nm}>> c; }}")
+            } else if kind == 2 {
+                // raw containers, also as returned values of oneway methods
+                format!("oneway interface I {{ List f(); Map g(in List a, out Map b); List<Map> h(in List<List> c); oneway {nm} k(inout {nm} x); List<{nm}>[] l(); }}")
+            } else {
+                format!("interface I {{ oneway List f(); oneway Map g(in Map a); oneway List<{nm}> h(); oneway {nm}[] k(in List<Map<{nm}>> x); oneway void l(out List m, inout {nm}... ); }}")
             };
             (
                 format!("imports mask {mask:05b} name {nm} decls {d} kind {kind}"),
